@@ -35,6 +35,7 @@ extern "C" void harness() {
     long long c = r.push(w[i], t[i]);
     VASSERT(q == c, "predicted cost equals performed cost");
     costs += c;
+    __verif_observe(c);
   }
   __verif_cover("all pushed");
   std::vector<int> x = r.getPlacement();
@@ -43,6 +44,7 @@ extern "C" void harness() {
   for (int i = 0; i < n; ++i) {
     VASSERT(x[i] >= prev, "order / no overlap / inside segment (left)");
     prev = x[i] + w[i];
+    __verif_observe(x[i]);
     long long d = x[i] - t[i]; if (d < 0) d = -d;
     cx += w[i] * d;
   }
